@@ -45,7 +45,7 @@ impl Prop for C12Prop {
             lifecycle_pct: 30,
             keyings: 2,
             boundary_per_mille: 25,
-            huge_one_in: 2000,
+            huge_one_in: 1000,
             hub_one_in: 0,
         }
         .gen("C12", seed, idx);
@@ -71,6 +71,11 @@ impl Prop for C12Prop {
         // many small communities (pairs of consecutive nodes): a community far smaller than the graph
         if n >= 4 {
             families.push(("pairs".into(), names.chunks(2).map(|c| c.to_vec()).collect()));
+        }
+        if n >= 40 {
+            // communities of 20 consecutive nodes (dense graphs are built from blocks of consecutive nodes: many
+            // edges, parallel ones included, inside a small community)
+            families.push(("blocks_of_20".into(), names.chunks(20).map(|c| c.to_vec()).collect()));
         }
         let mut with_empty = base.clone();
         with_empty.insert(rng.below(with_empty.len() + 1), vec![]);
@@ -203,7 +208,7 @@ impl Prop for C12Prop {
         }
     }
     fn rule(&self) -> String {
-        "graphs of every kind (n <= 20) with families of node sets: a random set partition, singletons, one set, a partition plus an empty set, and non-partitions built by mutation (a member duplicated into a second set, a member dropped, a foreign name added, a foreign name replacing a member, and the cancelling combination of one duplicate and one omission whose sizes still sum to n); is_partition vs the set-theoretic definition; modularity (weighted / unweighted, resolution in (0,3] and default) vs Newman's formula from the stored edge list at 1e-9 on true partitions, NotAPartition otherwise; 2 hash keyings (summation order). distinct_nontrivial = distinct (graph, families, resolution) with >= 1 edge and >= 2 nodes; one case in 2000 is a dense graph (1-3 blocks, 60-300 nodes) with 2 100 - 12 500 stored edges under a pool of 2-16 workers (strategy thresholds); in a third of the cases a battery of valid unjudged calls runs first on a sibling graph (same names and edges, other node order), in a fifth the graph is queried on the same object before its last one to three operations are applied (DESIGN.md 0.2); the families are evaluated in a seeded order on one thread, the rejected (foreign name) and the cancelling family once more at the end; dense graphs of up to 17 000 edges".into()
+        "graphs of every kind (n <= 20) with families of node sets: a random set partition, singletons, one set, a partition plus an empty set, and non-partitions built by mutation (a member duplicated into a second set, a member dropped, a foreign name added, a foreign name replacing a member, and the cancelling combination of one duplicate and one omission whose sizes still sum to n); is_partition vs the set-theoretic definition; modularity (weighted / unweighted, resolution in (0,3] and default) vs Newman's formula from the stored edge list at 1e-9 on true partitions, NotAPartition otherwise; 2 hash keyings (summation order). distinct_nontrivial = distinct (graph, families, resolution) with >= 1 edge and >= 2 nodes; one case in 1000 is a dense graph (1-3 blocks, 60-300 nodes) with 2 100 - 12 500 stored edges under a pool of 2-16 workers (strategy thresholds); in a third of the cases a battery of valid unjudged calls runs first on a sibling graph (same names and edges, other node order), in a fifth the graph is queried on the same object before its last one to three operations are applied (DESIGN.md 0.2); the families are evaluated in a seeded order on one thread, the rejected (foreign name) and the cancelling family once more at the end; dense graphs of up to 20 000 edges; family 'blocks of 20 consecutive nodes' (small communities with many internal and parallel edges); dense graphs of up to 20 000 edges, one case in 1000".into()
     }
     fn assumptions(&self) -> Vec<String> {
         vec!["a family containing empty sets is a partition iff its non-empty sets are (the definition only speaks of disjointness, membership and cover)".into(), "weighted modularity only on graphs whose edges all carry weights".into()]
